@@ -265,8 +265,6 @@ where
 
         if self.result.as_mut().unwrap().is_bin {
             if self.col == 0 {
-                self.result.as_mut().unwrap().writer.write_u8(0x00)?;
-
                 // leave space for nullmap
                 self.data.resize(self.bitmap_len, 0);
             }
@@ -314,11 +312,11 @@ where
         }
 
         if self.result.as_mut().unwrap().is_bin {
-            self.result
-                .as_mut()
-                .unwrap()
-                .writer
-                .write_all(&self.data[..])?;
+            // the packet header is only written once the row is known to be complete, so that
+            // a refused first column does not leave a stray byte behind
+            let w = &mut self.result.as_mut().unwrap().writer;
+            w.write_u8(0x00)?;
+            w.write_all(&self.data[..])?;
             self.data.clear();
         }
         self.result.as_mut().unwrap().writer.end_packet()?;
